@@ -73,6 +73,15 @@ def digest(outputs):
     return h.hexdigest()
 
 
+def run_diff(a, b):
+    """first differing line of the outputs of two runs"""
+    la, lb = a.split("\n"), b.split("\n")
+    for i, (x, y) in enumerate(zip(la, lb)):
+        if x != y:
+            return "line %d: %r in one run, %r in the other" % (i + 1, x, y)
+    return "%d vs %d lines" % (len(la), len(lb))
+
+
 def run_once(sc, lang, multi, env):
     out = sc.path("out")
     shutil.rmtree(out, ignore_errors=True)
@@ -94,7 +103,12 @@ def run(check):
                   "results for <= %d files (collector hook TYPESHARE_VERIF_ORDER), sampled orders beyond, walker thread counts "
                   "1-16 (TYPESHARE_VERIF_THREADS) and repeated processes (fresh hash seeds); all outputs must be byte-identical "
                   "and equal to the text the Lean pipeline model generates from the same files in canonical order; "
-                  "non-trivial = the tree has >= 2 files contributing items" % max_exh)
+                  "non-trivial = the tree has >= 2 files contributing items.  Plus: workspaces in which one type name is reachable from two "
+                  "or three crates (0-3 of them serde-renamed; `use` from different files of one crate, `use` next to a qualified / self:: / "
+                  "crate:: path, two `use` items, a re-exporting crate that is not part of the run; crate names whose byte order differs from "
+                  "the order written) in >= 10 fresh processes and under permuted arrival orders: byte-identical and byte-exact against the "
+                  "model; import mixes, overlapping source directories, generic parameter names; the stored witness of the open finding "
+                  "duplicate-type-names-arrival-order" % max_exh)
     for t in range(ntrees):
         lang = LANGS[t % 6]
         multi = (t // 6) % 2 == 1
@@ -143,7 +157,7 @@ def run(check):
                 names = set().union(*[l2.names_of(f["file"]) for f in files])
                 mreq, _, _ = l2.requests(lang, cfg, jobs, g, multi_file=multi)
                 ma = model([mreq], names=names if lang == "python" else None)[0]
-                if "ok" in ma and "ambiguous" not in ma:
+                if "ok" in ma:
                     impl_texts = sorted(first[1].values())
                     model_texts = sorted(v for k, v in ma["ok"].items())
                     if impl_texts != model_texts:
@@ -159,6 +173,10 @@ def run(check):
                               "distinct_outputs": len(seen)})
     if not check.violations:
         import_mix_part(check)
+    if not check.violations:
+        ambiguous_part(check)
+    if not check.violations:
+        duplicate_names_part(check)
     if not check.violations:
         overlap_part(check)
     if not check.violations:
@@ -217,9 +235,192 @@ def import_mix_part(check):
             (k1, o1), (k2, o2) = list(seen.values())[:2]
             diff = next(fn for fn in sorted(set(o1) | set(o2)) if o1.get(fn) != o2.get(fn))
             check.violation("%s multi-file output differs between two runs of the same binary over the same three crates (process %d vs %d, "
-                            "file %s: %s)" % (lang, k1, k2, diff, l2.text_diff(o1.get(diff, ""), o2.get(diff, ""))),
+                            "file %s: %s)" % (lang, k1, k2, diff, run_diff(o1.get(diff, ""), o2.get(diff, ""))),
                             case={"lang": lang, "files": {f["rel"]: render_file(f["file"]) for f in files}, "styles": styles},
                             impl={"a": o1, "b": o2}, failing_input=True)
+            return
+
+
+# byte order (Rust's String: Ord) differs from "dictionary" order on these: digits < `_` < lower-case letters, a prefix first
+# (an upper-case first segment is taken for a type, not a crate, by the import collector: no such provider)
+AMBIG_PROVIDERS = ["ledger", "directory", "zeta", "alpha-x", "alpha_w", "mid_crate", "mid", "midway", "b2", "b-10"]
+AMBIG_CONSUMERS = ["app", "aaa", "zz-app", "mid_crate2", "Zed"]
+AMBIG_SHAPES = ["two-files", "use-and-qualified", "two-uses", "self-path", "crate-path", "reexport", "reexport+use", "two-files+reexport"]
+
+
+def ambiguous_workspace(rng, k, shape, nprov, nren):
+    """a workspace in which one type name is reachable from several crates.  `nprov` provider crates define a struct of the same
+    name (`nren` of them with serde(rename)); a consumer crate refers to it
+      two-files          `use p1::T;` in one file, `use p2::T;` in another file of the same crate
+      use-and-qualified  `use p1::T;` and a field of type `p2::T` in one file
+      two-uses           `use p1::T; use p2::T;` in one file (typeshare does not resolve names: accepted)
+      self-path          `use p1::T;` next to a field of type `self::T`
+      crate-path         `use p1::T;` next to a field of type `crate::m::T`
+      reexport           `use facade::T;` where `facade` is not part of the run (two or three other crates define T)
+      reexport+use       the same plus `use p1::T;` from another file
+      two-files+reexport two-files plus a third file with `use facade::T;`
+    crate names are drawn so that the smallest one is not always the first written / the first imported."""
+    ts = [m_path("typeshare")]
+    word = rng.choice(TYPE_WORDS)
+    provs = rng.sample(AMBIG_PROVIDERS, nprov)
+    cons = rng.choice(AMBIG_CONSUMERS)
+    renamed = set(rng.sample(range(nprov), nren))
+    files = []
+    for i, pc in enumerate(provs):
+        attrs = list(ts)
+        if i in renamed:
+            attrs.append(m_list("serde", [m_nv("rename", lit_s("%sOf%s" % (word, pc.replace("-", "").replace("_", "").capitalize())))]))
+        item = {"kind": "struct", "attrs": attrs, "ident": word, "generics": [],
+                "fields": ("named", [field([], "from_%s" % pc.replace("-", "_").lower(), t_path("u32"))])}
+        extra = {"kind": "struct", "attrs": list(ts), "ident": "Only%d%s" % (i, word), "generics": [],
+                 "fields": ("named", [field([], "n", t_path("u8"))])}
+        files.append(dict(rel="%s/src/lib.rs" % pc, crate=pc.replace("-", "_"), file={"attrs": [], "items": [item, extra]}))
+    pn = [p.replace("-", "_") for p in provs]
+    order = list(range(nprov))
+    rng.shuffle(order)                         # which provider is imported first
+    p1, p2 = pn[order[0]], pn[order[1]]
+    wrap = lambda t, j: [t, t_path("Vec", [t]), t_path("Option", [t]), t_path("HashMap", [t_path("String"), t])][j % 4]
+    use = lambda c: {"kind": "use", "tree": ("upath", c, ("uname", word))}
+    holder = lambda name, tys: {"kind": "struct", "attrs": list(ts), "ident": name, "generics": [],
+                                "fields": ("named", [field([], "f%d" % j, wrap(t, j + k)) for j, t in enumerate(tys)])}
+    T = t_path(word)
+    cfiles = []
+    if shape in ("two-files", "two-files+reexport"):
+        cfiles.append(("billing.rs", [use(p1), holder("Billing%d" % k, [T])]))
+        cfiles.append(("audit.rs", [use(p2), holder("Audit%d" % k, [T])]))
+        if nprov == 3:
+            cfiles.append(("third.rs", [use(pn[order[2]]), holder("Third%d" % k, [T])]))
+        if shape == "two-files+reexport":
+            cfiles.append(("via.rs", [use("facade_missing"), holder("Via%d" % k, [T])]))
+    elif shape == "use-and-qualified":
+        cfiles.append(("lib.rs", [use(p1), holder("Mixed%d" % k, [T, t_path(word, quals=[p2])])]))
+    elif shape == "two-uses":
+        cfiles.append(("lib.rs", [use(p1), use(p2)] + ([use(pn[order[2]])] if nprov == 3 else []) + [holder("Both%d" % k, [T])]))
+    elif shape == "self-path":
+        cfiles.append(("lib.rs", [use(p1), holder("SelfRef%d" % k, [T, t_path(word, quals=["self"])])]))
+    elif shape == "crate-path":
+        cfiles.append(("lib.rs", [use(p1), holder("CrateRef%d" % k, [t_path(word, quals=["crate", "m"]), T])]))
+    elif shape == "reexport":
+        cfiles.append(("lib.rs", [use("facade_missing"), holder("Via%d" % k, [T])]))
+    elif shape == "reexport+use":
+        cfiles.append(("lib.rs", [use("facade_missing"), holder("Via%d" % k, [T])]))
+        cfiles.append(("direct.rs", [use(p1), holder("Direct%d" % k, [T])]))
+    else:
+        raise ValueError(shape)
+    for fn, items in cfiles:
+        files.append(dict(rel="%s/src/%s" % (cons, fn), crate=cons.replace("-", "_"), file={"attrs": [], "items": items}))
+    rng.shuffle(files)
+    return files, dict(type=word, providers=provs, renamed=sorted(provs[i] for i in renamed), consumer=cons, shape=shape,
+                       imported_first=p1)
+
+
+def ambiguous_part(check):
+    """the class that was hash-seed dependent before the `fix:` commit "resolve a type name imported from several crates the same way in
+    every run": one type name reachable from two or three crates.  The real binary is run in >= 10 fresh processes (fresh hash seeds:
+    the iteration orders of import_types / all_types) and under permuted arrival orders of the per-file results; all outputs must be
+    byte-identical, and equal byte for byte to what the Lean pipeline + back-end models generate (no `ambiguous` exemption)."""
+    from c14 import file_name
+    rng = check.rng
+    nws = 96 if check.thorough else 24
+    reps = 16 if check.thorough else 10
+    for w in range(nws):
+        # every shape once with each of the two languages that print the import clause, then random shapes in all six languages
+        if w < 2 * len(AMBIG_SHAPES):
+            shape, lang = AMBIG_SHAPES[w // 2], ["typescript", "kotlin"][w % 2]
+        else:
+            shape, lang = rng.choice(AMBIG_SHAPES), LANGS[w % 6]
+        nprov = 2 if w % 3 else 3
+        if "reexport" in shape:
+            # the fallback looks the name up among the *renamed* names: at least two providers keep the Rust name
+            nren = 0 if nprov == 2 else w % 2
+        elif shape == "two-files" and w < 2 * len(AMBIG_SHAPES):
+            nren = 2                                 # resolve_renamed has a choice only between crates that both rename the type
+        elif lang not in ("typescript", "kotlin"):
+            nren = rng.choice([1, 2, nprov])         # without an import clause only the serde names show which crate was taken
+        else:
+            nren = [2, 1, 0, 2, nprov][w % 5]
+        files, meta = ambiguous_workspace(rng, w, shape, nprov, nren)
+        g = Gen(rng, p_serialized_as=0.0)
+        n = len(files)
+        with Scratch() as sc:
+            for f in files:
+                sc.write("ws/" + f["rel"], render_file(f["file"]))
+            if n <= 4:
+                orders = [",".join(map(str, p)) for p in itertools.permutations(range(n))]
+                if not check.thorough:
+                    orders = rng.sample(orders, min(len(orders), 6))
+            else:
+                orders = ["seed:%d" % rng.randint(0, 10**6) for _ in range(12 if check.thorough else 5)] + ["rev"]
+            envs = [{} for _ in range(reps)] + [{"TYPESHARE_VERIF_ORDER": o} for o in orders]
+            seen, first, rc0 = {}, None, None
+            for k, env in enumerate(envs):
+                r, outs = run_once(sc, lang, True, env)
+                check.saw(("ambiguous", w, k), nontrivial=True)
+                check.count("ambiguous-%s" % lang)
+                if first is None:
+                    first, rc0 = outs, r
+                seen.setdefault(digest(outs) + "|%s" % r["rc"], (env, outs))
+            check.count("ambiguous shape %s, %d providers, %d renamed" % (shape, nprov, nren))
+            srcs = {f["rel"]: render_file(f["file"]) for f in files}
+            if len(seen) > 1:
+                (e1, o1), (e2, o2) = list(seen.values())[:2]
+                fn = next(fn for fn in sorted(set(o1) | set(o2)) if o1.get(fn) != o2.get(fn))
+                check.violation("%s multi-file output differs between two runs of the same binary over the same workspace, in which the "
+                                "type name %s is reachable from several crates (%s; %s vs %s; file %s: %s)" % (
+                                    lang, meta["type"], shape, e1 or "fresh process", e2 or "fresh process", fn,
+                                    run_diff(o1.get(fn, ""), o2.get(fn, ""))),
+                                case={"lang": lang, "files": srcs, "workspace": meta, "env_a": e1, "env_b": e2},
+                                impl={"a": o1, "b": o2}, failing_input=True)
+                return
+            if rc0["rc"] != 0:
+                check.count("ambiguous: generation error")
+                continue
+            jobs = [{"crate": f["crate"], "file_name": file_name(lang, f["crate"]), "path": sc.path("ws/" + f["rel"]), "file": f["file"]}
+                    for f in sorted(files, key=lambda f: f["rel"])]
+            cfg = {"package": "proto" if lang == "go" else "com.example", "version_header": True, "type_mappings": {}}
+            names = set().union(*[l2.names_of(f["file"]) for f in files])
+            mreq, _, _ = l2.requests(lang, cfg, jobs, g, multi_file=True)
+            ma = model([mreq], names=names if lang == "python" else None)[0]
+            mtexts = dict(ma.get("ok") or {})
+            itexts = {f["crate"]: first[file_name(lang, f["crate"])] for f in files if file_name(lang, f["crate"]) in first}
+            if "Codable.swift" in first:
+                itexts["<post>/Codable.swift"] = first["Codable.swift"]
+            if "ok" not in ma or mtexts != itexts:
+                key = next((c for c in sorted(set(mtexts) | set(itexts)) if mtexts.get(c) != itexts.get(c)), None)
+                check.violation("the binary's %s output for a workspace with the type name %s reachable from several crates (%s) differs "
+                                "from the model's%s" % (lang, meta["type"], shape,
+                                                        ": module %s: %s" % (key, l2.text_diff(mtexts.get(key, ""), itexts.get(key, ""))) if key else
+                                                        ": the model answers %s" % json.dumps(ma)[:200]),
+                                case={"lang": lang, "files": srcs, "workspace": meta}, impl=itexts, model=ma, failing_input=False,
+                                broken="correspondence L3 multi-file pipeline on ambiguous imports (theorems TsV.C06.C06_multi*)")
+                return
+        if len(check.samples) < 5:
+            check.sample({"lang": lang, "ambiguous_workspace": meta, "runs": len(envs), "distinct_outputs": len(seen)})
+
+
+def duplicate_names_part(check):
+    """the class the theorems still exclude (`Known_duplicate_names`, witness of TsV.C06.C06_multi_not_full): two types of the same
+    name in one crate (legal Rust: different modules; typeshare flattens modules).  The stable sort keeps them in arrival order, so the
+    bytes depend on the schedule.  Replayed with the collector hook; recorded as an open finding."""
+    srcs = {"app/src/one.rs": "#[typeshare]\npub struct Account { pub a: u8 }\n",
+            "app/src/two.rs": "pub mod inner {\n    #[typeshare]\n    pub struct Account { pub b: String }\n}\n"}
+    for lang, multi in (("typescript", True), ("kotlin", False)):
+        with Scratch() as sc:
+            for rel, text in srcs.items():
+                sc.write("ws/" + rel, text)
+            runs = [(o, run_once(sc, lang, multi, {"TYPESHARE_VERIF_ORDER": o})) for o in ("0,1", "1,0")]
+        check.saw(("duplicate-names", lang), nontrivial=True)
+        check.count("duplicate-type-names-%s" % lang)
+        (oa, (ra, outa)), (ob, (rb, outb)) = runs
+        if outa != outb:
+            fn = next(fn for fn in sorted(set(outa) | set(outb)) if outa.get(fn) != outb.get(fn))
+            witness = {"lang": lang, "multi_file": multi, "files": srcs, "orders": [oa, ob], "file": fn,
+                       "difference": run_diff(outa.get(fn, ""), outb.get(fn, ""))}
+            if check.known("duplicate-type-names-arrival-order", witness):
+                continue
+            check.violation("%s output differs between the two arrival orders of two files of one crate that both define a type called "
+                            "Account (%s: %s)" % (lang, fn, witness["difference"]),
+                            case=witness, impl={"a": outa, "b": outb}, failing_input=True)
             return
 
 
